@@ -23,7 +23,7 @@ RULE = (
     '(replacements that mention replaced variables, constants as '
     'references, 2..n entries), renamings and assignments on sampled '
     'tables. Oracle: simultaneous substitution on truth tables; u and all '
-    'replacement references unchanged afterwards. Non-trivial: some key in '
+    'replacement references unchanged afterwards. W: managers with 300 variables (support of 2..6 variables spread over the order or clustered at either end; the three forms of let through dd.bdd and dd.autoref), results evaluated by walking low/high on every assignment of the support. Non-trivial: some key in '
     'support(u) and result != u; distinct = (form, order, variant, u, d).')
 ASSUMPTIONS = [
     'let dictionaries are homogeneous (documented); Boolean values are '
@@ -105,6 +105,11 @@ def plan(tier, seed):
     for order in fix.orders(3):
         specs.append(dict(kind='compose1', order=order, seed=seed,
                           variant='fresh'))
+    for api in ('bdd', 'autoref'):
+        for s in range(4 if tier == 'thorough' else 1):
+            specs.append(dict(kind='wide', n=300, api=api,
+                              seed=seed * 100 + 80 + s,
+                              examples=60 if tier == 'thorough' else 12))
     for s in range(12 if tier == 'thorough' else 4):
         specs.append(dict(kind='random', seed=seed * 100 + s,
                           examples=1500 if tier == 'thorough' else 300))
@@ -415,6 +420,166 @@ def run_random(spec, out):
     test()
 
 
+
+# ---------------------------------------------------------------------
+# W: hundreds of variables (levels and node counts far beyond the small
+# sweeps; code paths that switch on the size of the manager)
+def _wide_tab(r, k):
+    return r.getrandbits(1 << k)
+
+
+def _wide_val(tab, bits):
+    """Value of truth table `tab` (bit i = value at the assignment whose
+    j-th support variable is bit j of i)."""
+    i = 0
+    for j, v in enumerate(bits):
+        if v:
+            i |= 1 << j
+    return (tab >> i) & 1
+
+
+def _wide_build(b, names, tab, k):
+    """Reference for table `tab` over the support variables `names`."""
+    def rec(j, idx):
+        if j == k:
+            return b.true if (tab >> idx) & 1 else b.false
+        lo = rec(j + 1, idx)
+        hi = rec(j + 1, idx | (1 << j))
+        return b.ite(b.var(names[j]), hi, lo)
+    return rec(0, 0)
+
+
+def _wide_eval(b, u, a):
+    neg = u < 0
+    u = abs(u)
+    guard = 0
+    while u != 1:
+        i, v, w = b.succ(u)
+        nxt = w if a.get(b.var_at_level(i), False) else v
+        if nxt < 0:
+            neg = not neg
+        u = abs(nxt)
+        guard += 1
+        require(guard < 10 ** 4, 'wide.cycle')
+    return 0 if neg else 1
+
+
+def check_wide_case(case):
+    """One case at the interpreter's default recursion limit (the worker
+    raises it for deep histories; code that sizes itself by
+    `sys.getrecursionlimit()` must be seen as a user sees it)."""
+    import sys
+    old = sys.getrecursionlimit()
+    sys.setrecursionlimit(case.get('reclimit', 1000))
+    try:
+        return _check_wide_case(case)
+    finally:
+        sys.setrecursionlimit(old)
+
+
+def _check_wide_case(case):
+    import dd.autoref as _ar
+    r = random.Random(f'c04wide:{case["seed"]}:{case["idx"]}')
+    N = case['n']
+    allnames = [f'w{i}' for i in range(N)]
+    ar = case['api'] == 'autoref'
+    if ar:
+        A = _ar.BDD()
+        A.declare(*allnames)
+        b = A._bdd
+    else:
+        b = fix.new_bdd(allnames)
+        A = b
+    k = r.randint(2, 6)
+    # support: spread over the whole order, or clustered at the bottom /
+    # top, in a random order of significance
+    where = r.choice(['spread', 'bottom', 'top'])
+    pool = dict(spread=range(N), bottom=range(N - 12, N),
+                top=range(12))[where]
+    sup = r.sample(list(pool), k)
+    names = [allnames[i] for i in sup]
+    tf = _wide_tab(r, k)
+    u = _wide_build(b, names, tf, k)
+    b.incref(u)
+    mode = case['mode']
+    keys = r.sample(range(k), r.randint(1, k))
+    others = [x for x in allnames if x not in names]
+    if mode == 'const':
+        d = {names[j]: bool(r.getrandbits(1)) for j in keys}
+        if r.random() < 0.3:
+            d[r.choice(others)] = True      # key outside the support
+
+        def want(bits):
+            bb = [d.get(names[j], bits[j]) for j in range(k)]
+            return _wide_val(tf, bb)
+        ext = []
+    elif mode == 'rename':
+        new = r.sample(others, len(keys))
+        d = {names[j]: new[i] for i, j in enumerate(keys)}
+        ext = new
+
+        def want(bits):
+            return _wide_val(tf, bits)
+    else:
+        tabs = {j: _wide_tab(r, k) for j in keys}
+        d = {names[j]: _wide_build(b, names, tabs[j], k) for j in keys}
+        for g in d.values():
+            b.incref(g)
+        ext = []
+
+        def want(bits):
+            bb = [(_wide_val(tabs[j], bits) if j in tabs else bits[j])
+                  for j in range(k)]
+            return _wide_val(tf, bb)
+    if ar:
+        fu = _ar.Function(u, A)
+        if mode == 'compose':
+            dd_ = {x: _ar.Function(g, A) for x, g in d.items()}
+        else:
+            dd_ = dict(d)
+        res = A.let(dd_, fu)
+        rn = res.node
+    else:
+        rn = b.let(dict(d), u)
+    nt = rn != u
+    # compare on every assignment of the support (renamed variables carry
+    # the value of the variable they replace), everything else False, and
+    # on the same with everything else True
+    for fill in (False, True):
+        for bits in itertools.product((0, 1), repeat=k):
+            a = {x: fill for x in allnames} if fill else {}
+            for j in range(k):
+                a[names[j]] = bool(bits[j])
+            if mode == 'rename':
+                for j in keys:
+                    a[d[names[j]]] = bool(bits[j])
+                    a[names[j]] = fill
+            got = _wide_eval(b, rn, a)
+            require(got == want(list(bits)), 'wide.let_wrong_result',
+                    dict(mode=mode, k=k, where=where))
+    # the argument is untouched
+    for bits in itertools.product((0, 1), repeat=k):
+        a = {names[j]: bool(bits[j]) for j in range(k)}
+        require(_wide_eval(b, u, a) == _wide_val(tf, list(bits)),
+                'wide.argument_changed')
+    b.assert_consistent()
+    return nt
+
+
+def run_wide(spec, out):
+    for idx in range(spec['examples']):
+        for mode in ('const', 'rename', 'compose'):
+            case = dict(kind='wide', n=spec['n'], seed=spec['seed'],
+                        idx=idx, mode=mode, api=spec['api'])
+
+            def body():
+                out.case(check_wide_case(case), case)
+                out.label(f'wide.{mode}.{spec["api"]}')
+                out.sample(case)
+            if not out.guard(case, body):
+                out.case(False, case)
+
+
 def replay_into(case, out):
     if case.get('kind') == 'sandwich':
         return fix.run_sandwich({k: case[k] for k in (
@@ -426,7 +591,9 @@ def replay_into(case, out):
     if case.get('kind') == 'history':
         return H.replay_into(case, out)
     kind = case['kind']
-    if kind == 'random':
+    if kind == 'wide':
+        out.guard(case, lambda: check_wide_case(case))
+    elif kind == 'random':
         out.guard(case, lambda: check_random_case(case))
     elif kind == 'compose1case':
         def body():
@@ -454,5 +621,6 @@ def run(spec, out):
         return c09.run_schedule(spec, out)
     if spec['kind'] == 'history':
         return H.run_random(spec, out, HIST_ALPHA, _hist_nontrivial)
-    dict(small=run_small, compose1=run_compose1, random=run_random)[
+    dict(small=run_small, compose1=run_compose1, random=run_random,
+         wide=run_wide)[
         spec['kind']](spec, out)
